@@ -321,6 +321,11 @@ func (tr *fnTrans) oblige(kind, local, goal string, p token.Pos, props []string,
 }
 
 func (tr *fnTrans) obligeG(guard, kind, local, goal string, p token.Pos, props []string, src string) {
+	if tr.spec != nil && tr.spec.Flags["only_at"] != "" && kind != "assert" && !strings.HasPrefix(local, "vacuity.") {
+		// the function is under contract only for its at-call clauses (which calls it makes, with what arguments);
+		// everything else about it is not examined
+		return
+	}
 	if props == nil {
 		props = tr.props
 		switch kind {
